@@ -42,20 +42,20 @@ def hasSynField (b : Batch) (n : Name) : Prop :=
 
     * `plain = false` — synonym fields occur only in documents implementing
       `index.SynonymDocument`.  `synonymIndexOpaque.realloc`
-      (section_synonym_index.go:189, 198: `if synDoc, ok := result.(index.SynonymDocument)`)
-      visits only such documents, while `synonymIndexSection.Process` (line 413:
+      (section_synonym_index.go:184, 193: `if synDoc, ok := result.(index.SynonymDocument)`)
+      visits only such documents, while `synonymIndexSection.Process` (line 416:
       `if sf, ok := field.(index.SynonymField)`) is called for every synonym
       field of every document.  For a synonym field in a plain document
-      `so.FieldIDtoThesaurusID[fieldID]`, `thesaurus[term] - 1` (line 156) and
-      `termSynMap[syn]` (line 161) would be read without having been defined.
+      `so.FieldIDtoThesaurusID[fieldID]` (line 154), `thesaurus[term] - 1` (line 162) and
+      `termSynMap[syn]` (line 167) would be read without having been defined.
       USED by the Lean proofs (C12_* are false without it: ids missing, and
       `hasThes` false while pass 2 still sees the field).
     * `rhs ≠ []` — a thesaurus none of whose definitions has a synonym gets an
-      empty `SynonymIDtoTerm`; `writeSynTermMap` (line 523 `if len(synTermMap) == 0
+      empty `SynonymIDtoTerm`; `writeSynTermMap` (line 524 `if len(synTermMap) == 0
       { return nil }`) then writes nothing and the loader
       (synonym_cache.go:84-88) reads the next bytes as the count.  Not used by
       the Lean proofs (the model drops such definitions, as `writeSynonyms`
-      returning offset 0 at line 492-494 does).  The weaker "every thesaurus has
+      returning offset 0 at lines 495-497 does).  The weaker "every thesaurus has
       some synonym" would do for the loader; the per-definition form is what the
       generators guarantee.
     * synonym terms `≠ []` — the loader rejects a zero-length synonym term
